@@ -151,6 +151,15 @@ class Judge:
             return None
         if (got is None) != (got2 is None) or (got is not None and not (got == got2)):
             self.v('from_game-vs-or_none', t, hole, board, f'from_game gave {got2!r}, from_game_or_none {got!r}')
+        # the order in which the cards were dealt must not matter
+        if (len(hole) > 1 or len(board) > 1) and (t not in COMBO or len(hole) + len(board) <= 7):
+            try:
+                got3 = T.from_game_or_none(ho[::-1], bo[::-1])
+            except Exception as exc:
+                got3 = exc
+            self.c['reversed_deal_orders_compared'] += 1
+            if isinstance(got3, Exception) or (got is None) != (got3 is None) or (got is not None and not (got == got3)):
+                self.v('deal-order-dependence', t, hole, board, f'cards given in reverse order evaluate to {got3!r}, in this order to {got!r}')
         self.classes.add((t, len(hole), len(board), None if exp is None else repr(exp[0])))
         if exp is None:
             self.c['no_hand_expected'] += 1
